@@ -36,4 +36,6 @@ C03-read-from-secondary-cleared-early C03 c01_commit_events_1pc_p0
 C17-tuple-user-element-not-first C17 c17_user_tuple
 C14-mark-full-from-highest-free C14 c14_tracker_alloc_path
 C10-root-collapse-deferred-checksum C10 c10_leaf_build_vv
+C19-str-separator-cut-inside-char C19 c19_str_separator_routes_in_v3
+C11-load-allocator-state-region-range C11 c11_mark_page_allocated_n13
 LIST
